@@ -166,6 +166,30 @@ pub enum E4 {
     B { y: serde_json::Value },
 }
 
+/// variant-level renames (error names that are not Rust identifiers' natural spelling); `Debug`
+/// prints the *wire* name so that observations are spelled like the shape
+#[derive(ReplyError, PartialEq)]
+#[zlink(interface = "x", crate = "zlink_core")]
+pub enum E5 {
+    #[zlink(rename = "NotOK")]
+    NotOk,
+    #[zlink(rename = "IOError")]
+    IoError {
+        #[zlink(rename = "errNo")]
+        err_no: i32,
+    },
+    Same,
+}
+impl core::fmt::Debug for E5 {
+    fn fmt(&self, f: &mut core::fmt::Formatter<'_>) -> core::fmt::Result {
+        f.write_str(match self {
+            E5::NotOk => "NotOK",
+            E5::IoError { .. } => "IOError",
+            E5::Same => "Same",
+        })
+    }
+}
+
 pub const PS: &[(&str, &str)] = &[
     ("unit", "unit"),
     ("value", "value"),
@@ -180,6 +204,7 @@ pub const ES: &[(&str, &str)] = &[
     ("E3", "x|Renamed(theCode:i64,opt:?str)|Plain()"),
     ("E0", "x|"),
     ("E4", "x|A(x:bool)|B(y:any)"),
+    ("E5", "x|NotOK()|IOError(errNo:i32)|Same()"),
 ];
 
 fn ident(dbg: &str) -> String {
@@ -215,6 +240,7 @@ macro_rules! with_e {
             "E3" => cls(block_on($conn.receive_reply::<$p, E3>())),
             "E0" => cls(block_on($conn.receive_reply::<$p, E0>())),
             "E4" => cls(block_on($conn.receive_reply::<$p, E4>())),
+            "E5" => cls(block_on($conn.receive_reply::<$p, E5>())),
             _ => panic!("unknown E"),
         }
     };
@@ -682,7 +708,10 @@ fn gen_encode_case(rng: &mut Rng) -> String {
     let ji = |x: i128| J::Num(x.to_string()).sexpr();
     let jo = |x: Option<String>| x.map(|v| js(&v)).unwrap_or("n".into());
     let apply = |c: Call<M1>| c.set_oneway(flags.0).set_more(flags.1).set_upgrade(flags.2);
-    match rng.below(13) {
+    match rng.below(16) {
+        13 => format!("enc error {} V 0 A => {}", ES[5].1, sent_bytes(|c| block_on(c.send_error(&E5::NotOk)))),
+        14 => format!("enc error {} V 1 A {} => {}", ES[5].1, ji(n as i128 - 50000), sent_bytes(|c| block_on(c.send_error(&E5::IoError { err_no: n as i32 - 50000 })))),
+        15 => format!("enc error {} V 2 A => {}", ES[5].1, sent_bytes(|c| block_on(c.send_error(&E5::Same)))),
         0 => format!("enc call {} V 0 A {} F {fl} => {}", MS[0].1, js(&s), sent_bytes(|c| block_on(c.send_call(&apply(Call::new(M1::A { v: s.clone() })))))),
         1 => format!("enc call {} V 1 A F {fl} => {}", MS[0].1, sent_bytes(|c| block_on(c.send_call(&apply(Call::new(M1::B)))))),
         2 => format!("enc call {} V 2 A {} {} F {fl} => {}", MS[0].1, ji(n as i128), oi.map(|v| ji(v as i128)).unwrap_or("n".into()),
